@@ -71,7 +71,7 @@ def make_cases(ctx):
         cases.append({'op': name, 'kind': ops.DIRECTED[name]['kinds'][0], 'm': 3, 'no_prss': name.startswith('x_fixed'), 'seed': 1})
     # 2. random extra cases, weighted towards m = 3
     names = sorted(ops.OPS)
-    for _ in range(ctx.scale(500, 6000)):
+    for _ in range(ctx.scale(300, 6000)):
         name = rng.choice(names)
         kind = rng.choice(ops.OPS[name]['kinds'])
         m, np_ = rng.choice(CONFIGS + [(3, False), (3, True)])
